@@ -8,7 +8,7 @@ Require Extraction.
 Require Import ExtrOcamlBasic.
 Extraction Language OCaml.
 Set Extraction KeepSingleton.
-Extraction "model.ml"
+Extraction "extracted/model.ml"
   bw_build bw_build_with_values cw_build cw_build_with_values
   bw_serialize bw_deserialize cw_serialize cw_deserialize
   find_next ovl_next nos_next lm_next cfind_next covl_next cnos_next clm_next
@@ -20,4 +20,5 @@ Extraction "model.ml"
   bw_heap_bytes cw_heap_bytes
   bw_find_iter bw_find_overlapping_iter bw_find_overlapping_no_suffix_iter bw_leftmost_find_iter
   cw_find_iter cw_find_overlapping_iter cw_find_overlapping_no_suffix_iter cw_leftmost_find_iter
-  spec_overlapping spec_find spec_nosuffix spec_lml spec_lmf effective distinct_nonempty_prefixes.
+  spec_overlapping spec_find spec_nosuffix spec_lml spec_lmf effective distinct_nonempty_prefixes
+  spec_build_error spec_build_error_conv.
